@@ -79,6 +79,13 @@ def plan(tier, seed):
                                "+ tail, heads %r, k in (2,5), tails ('', '[O][N][=C]')" % (INDEX_HEADS,)})
         for head in INDEX_HEADS:
             tasks.append((name, ("index", tn, head)))
+    els = sorted(misc.ELEMENTS)
+    scopes.append({"name": "every-element", "table": "default and mix",
+                   "desc": "[C] sym [C] and sym alone for every element x bond prefix ('', =, #, /, \\) x isotope ('', 13) x "
+                           "chirality ('', @, @@) x H ('', H1, H3) x charge ('', +1, -1, +2): symbol classification must not "
+                           "depend on how an element is spelled"})
+    for k in range(0, len(els), 8):
+        tasks.append(("every-element", ("elements", els[k:k + 8])))
     # the parametric families of C01 (ring counts, rings open at once, rings across fragments, nesting, budgets), here
     # compared with the model; members with >= 100 ring bonds are left to C01 (its known ring-label finding)
     from mc.props import c01
@@ -164,6 +171,16 @@ def run(task):
             check_tokens(w, t, trace, r)
         if lo == 0:
             r.sample({"scope": scope, "member": members[0][0], "selfies": members[0][1][:100]}, 1)
+    elif arg[0] == "elements":
+        for tn in ("default", "mix"):
+            table = use_table(tn)
+            for el in arg[1]:
+                for b, iso, chir, h, chg in itertools.product(["", "=", "#", "/", "\\"], ["", "13"], ["", "@", "@@"],
+                                                              ["", "H1", "H3"], ["", "+1", "-1", "+2"]):
+                    sym = "[%s%s%s%s%s%s]" % (b, iso, el, chir, h, chg)
+                    check_tokens((sym,), table, trace, r)
+                    check_tokens(("[C]", sym, "[C]"), table, trace, r)
+        r.sample({"scope": scope, "selfies": "[C]" + sym + "[C]"}, 1)
     else:
         _, tn, head = arg
         table = use_table(tn)
